@@ -13,12 +13,14 @@ import (
 	"strings"
 
 	"github.com/ipfs/go-cid"
+	cidlink "github.com/ipld/go-ipld-prime/linking/cid"
 	mh "github.com/multiformats/go-multihash"
 	"github.com/storacha/go-ucanto/core/dag/blockstore"
 	"github.com/storacha/go-ucanto/core/delegation"
 	"github.com/storacha/go-ucanto/core/invocation"
 	"github.com/storacha/go-ucanto/core/invocation/ran"
 	"github.com/storacha/go-ucanto/core/ipld"
+	"github.com/storacha/go-ucanto/core/ipld/block"
 	"github.com/storacha/go-ucanto/core/message"
 	"github.com/storacha/go-ucanto/core/receipt"
 	"github.com/storacha/go-ucanto/core/receipt/fx"
@@ -68,7 +70,7 @@ func genC13(cfg Config, emit Emit) error {
 			w.Invs = []int{}
 		}
 		normalize(w)
-		attach := r.Intn(3)
+		attach := r.Intn(5)
 		emit("roundtrip", []string{mustJSON(w), itoa(attach), itoa(r.Intn(1 << 30))}, class, len(w.Tokens) > 1)
 	})
 	return nil
@@ -187,17 +189,44 @@ func execRoundtrip(a []string) Result {
 	extra := map[string]int{}
 	// attachments on the invocation(s) and on one proof
 	var attached [][]int = make([][]int, len(w.Tokens))
+	aseed := 0
+	if len(a) > 2 {
+		aseed = atoi(a[2])
+	}
 	for k := 0; k < nattach; k++ {
 		tid := w.Inv
 		if k == 1 && len(w.Tokens) > 1 {
 			tid = (w.Inv + len(w.Tokens) - 1) % len(w.Tokens)
 		}
-		blk := rawCborBlock([]byte{0x18, byte(100 + k)})
-		extra[blk.Link().String()] = 10000 + k
+		var blk ipld.Block
+		id := 10000 + k
+		switch (aseed >> (2 * k)) % 4 {
+		case 1: // a block whose CID carries its bytes (identity multihash)
+			data := []byte{0x18, byte(100 + k)}
+			h, _ := mh.Sum(data, mh.IDENTITY, -1)
+			blk = block.NewBlock(cidlink.Link{Cid: cid.NewCidV1(0x55, h)}, data)
+		case 2: // a block the token already carries: its own root, or the root of an embedded proof
+			src := cw.D[tid]
+			for i, p := range w.Tokens[tid].Prfs {
+				if i < len(w.Tokens[tid].Inline) && w.Tokens[tid].Inline[i] {
+					src = cw.D[p]
+					break
+				}
+			}
+			blk = src.Root()
+			id = cw.idOf[blk.Link().String()]
+		default:
+			blk = rawCborBlock([]byte{0x18, byte(100 + k)})
+		}
+		if id >= 10000 {
+			extra[blk.Link().String()] = id
+		}
 		if err := cw.D[tid].Attach(blk); err != nil {
 			chk(false, "attach failed")
 		}
-		attached[tid] = append(attached[tid], 10000+k)
+		if id >= 10000 {
+			attached[tid] = append(attached[tid], id)
+		}
 	}
 	// 1. the link of every delegation is the CID of its root block bytes
 	for i, d := range cw.D {
